@@ -194,8 +194,24 @@ func runFixed(c *core.Ctx, i int) {
 		r.writeRow(0, sA, 4, 0, w1(4, 2), nil, false)
 		q := qSpec{qs: qs, qe: qe, ratio: 6, cond: allCond(), items: []qItem{{4, fnLast}}}
 		r.witness("last-downsampling-flushed-slot-wins", "last field: slot 1 = 1, flush, slot 4 = 2; last(flast) per minute (ratio 6) answers 1", q, "rs [] f4/a5=0:1")
-	case 14, 15:
-		// reserved (no-op cases keep the indices of the random cases stable)
+	case 14:
+		// a query while a flush is in progress, after a write that completed after the memory
+		// database switch: it must read the new mutable memory database, the immutable one and the files
+		r.oracleOn = true
+		r.writeRow(0, sA, 3, 0, w1(1, 1), nil, false)
+		r.flush(0)
+		r.writeRow(0, sA, 5, 0, w1(1, 2), nil, false)
+		r.writeRow(0, sB, 9, 0, w1(1, 4), nil, false)
+		r.flushWindow(0, func() {
+			r.query(q1(1, fnSum)) // no write yet: immutable + file
+			r.writeRow(0, sA, 5, 0, w1(1, 8), nil, false)
+			r.writeRow(0, sA, 40, 0, w1(1, 16), nil, false)
+			r.query(q1(1, fnSum)) // new mutable + immutable + file
+			r.query(qSpec{qs: qs, qe: qe, ratio: 6, cond: allCond(), by: []int{1}, items: []qItem{{1, fnSum}}})
+		})
+		r.query(q1(1, fnSum))
+	case 15:
+		// reserved (keeps the indices of the random cases stable)
 		r.oracleOn = true
 		r.writeRow(0, sA, 5+i, 0, w1(1, float64(i)), nil, false)
 		r.query(q1(1, fnSum))
